@@ -355,7 +355,22 @@ impl Monitor for C18 {
                             let usable = |t: i32| t >= MIN_TICK && t <= MAX_TICK && t % pool.tick_spacing as i32 == 0;
                             let fro_ok = pool.tick_spacing < 32768 || (lo == min_usable(pool.tick_spacing) && hi == max_usable(pool.tick_spacing));
                             let valid = usable(lo) && usable(hi) && lo < hi && fro_ok;
-                            cov.eval(format!("{}|new_range_valid={}|ok={}", name, valid, ok));
+                            let before = pre.data(&c.a("position")).and_then(decode::position);
+                            let same = before.as_ref().map(|p| p.lower == lo && p.upper == hi).unwrap_or(false);
+                            let shares_a_bound = before.as_ref().map(|p| (p.lower == lo) != (p.upper == hi)).unwrap_or(false);
+                            cov.eval(format!("{}|new_range_valid={}|same={}|shares_a_bound={}|ok={}", name, valid, same, shares_a_bound, ok));
+                            if ok && same {
+                                out.push(viol("same_range_accepted", ev.idx, format!("reposition_liquidity_v2 accepted the position's own range {}..{} as the new range", lo, hi)));
+                            }
+                            if !ok && valid && !same && code == Some(6060) {
+                                out.push(viol("legal_reposition_rejected", ev.idx, format!("reposition_liquidity_v2 to the different valid range {}..{} (from {:?}) rejected as the same range", lo, hi, before.as_ref().map(|p| (p.lower, p.upper)))));
+                            }
+                            if !ok && same && valid && code == Some(6060) {
+                                cov.probe("reposition_to_same_range_refused");
+                            }
+                            if ok && shares_a_bound {
+                                cov.probe("reposition_keeping_one_bound");
+                            }
                             if ok && !valid {
                                 out.push(viol("invalid_range_accepted", ev.idx, format!("reposition_liquidity_v2 accepted the new range {}..{} on a pool with spacing {}", lo, hi, pool.tick_spacing)));
                             }
